@@ -20,7 +20,9 @@ def run(ck, prog):
         "'global' exactly when no defset encloses the def (current_defset_id searches the whole scope stack), "
         "defs inside a defset are appended to that defset; classes, defsets and multiclasses always register; "
         "(R18.4) a declaration is registered before anything that can fail for a valid program (its value's "
-        "type being unknown) can return from the indexer. Not decided: exactness and source order of the "
+        "type being unknown) can return from the indexer; (R18.5) the scope stack current_defset_id reads is balanced "
+        "on every feasible path of every indexer function and its primitives are a stack (shared with C05): a scope "
+        "left behind would make later defs members of a defset that is already closed. Not decided: exactness and source order of the "
         "outline for every program (needs an oracle outline).")
     ck.trusted = ["rowan descendants() enumerates all nodes in source order", "indexmap keeps insertion order"]
     for r, t in (("R18.1", "folding kinds, enumeration and ranges"), ("R18.2", "outline arms and children"),
@@ -224,6 +226,10 @@ def run(ck, prog):
 
     # ---- R18.4 -------------------------------------------------------------------
     rule_registration_before_value(ck, prog, "R18.4")
+    # ---- R18.5 (shared with C05) ---------------------------------------------------
+    from .c05 import scope_stack_rule
+    ck.rule("R18.5", "the scope stack that decides top-level / defset membership is balanced on every feasible path (shared with C05)")
+    scope_stack_rule(ck, prog, "R18.5")
 
 
 REGISTER = re.compile(r"SymbolMap::add_(record|record_field|template_argument|variable|defset|multiclass|defm)$|"
